@@ -350,192 +350,201 @@ func CheckC15(run *evid.Run) {
 func CheckC16(run *evid.Run) {
 	nh := pick(run.Tier, 400, 8000)
 	run.Rule = "pairs of replicas (forked, overlapping, one empty, identical) taken from seeded histories; for every bound n in 0..total+3 the history is replayed on fresh replicas (replay twin, identical hashes) and Join(other, n) is compared with the twin's unbounded Join: entry set = last min(n,total) of the unbounded value sequence, heads = unreferenced entries among them, values = that tail, n >= total identical to the unbounded result; runs under recover; every other pair additionally as a SEQUENCE: the log already trimmed by Join(other,n1) is merged again (same source = an older snapshot of what it dropped, or another replica) for every n2, against the twin that does the second merge unbounded. When the ordering is not total on the merged set only count, subset and heads are compared. Non-trivial = both logs non-empty and different, and 0 < n < total or n > total; distinct = (pair shape digest, n class)"
-	parallel(nh, func(i int) {
-		rng := rand.New(rand.NewSource(run.Seed*4256233 + int64(i)))
-		h := hx.Gen(run.Seed, i, hx.GenOpts{MaxSteps: pick(run.Tier, 28, 50), Orders: []string{"hash", "default"}, MaxReplicas: 4})
-		// choose pair
-		a := rng.Intn(h.Replicas)
-		b := rng.Intn(h.Replicas - 1)
-		if b >= a {
-			b++
+	run.Assumptions = append(run.Assumptions, "runs in child processes with a journal: a runtime fatal error inside Join (e.g. an allocation sized by the bound) kills the child and is attributed to its input")
+	runCases(run, "C16", nh, true, false, ChildOpts{
+		OnDeath: func(last map[string]any, tail, kind string) (string, map[string]any) {
+			return "C16/panic", det("kind", kind, "n", last["n"])
+		}})
+}
+
+func init() { registerCases("C16", c16Case) }
+
+func c16Case(run *evid.Run, i int, j *Journal) {
+	rng := rand.New(rand.NewSource(run.Seed*4256233 + int64(i)))
+	h := hx.Gen(run.Seed, i, hx.GenOpts{MaxSteps: pick(run.Tier, 28, 50), Orders: []string{"hash", "default"}, MaxReplicas: 4})
+	// choose pair
+	a := rng.Intn(h.Replicas)
+	b := rng.Intn(h.Replicas - 1)
+	if b >= a {
+		b++
+	}
+	if i%4 == 1 {
+		// directed shape: b is an older snapshot of a (plus 0-2 entries of its own)
+		h.Shape, h.Replicas, h.Writers, h.ReplicaWriter, h.Steps = "older-snapshot", 2, 2, []int{0, 1}, nil
+		a, b = 0, 1
+		k := 0
+		app := func(r int) {
+			k++
+			h.Steps = append(h.Steps, hx.Step{Op: "append", R: r, PC: 1, Payload: fmt.Sprintf("%d.%d/s%d", h.Seed, h.Idx, k)})
 		}
-		if i%4 == 1 {
-			// directed shape: b is an older snapshot of a (plus 0-2 entries of its own)
-			h.Shape, h.Replicas, h.Writers, h.ReplicaWriter, h.Steps = "older-snapshot", 2, 2, []int{0, 1}, nil
-			a, b = 0, 1
-			k := 0
-			app := func(r int) {
-				k++
-				h.Steps = append(h.Steps, hx.Step{Op: "append", R: r, PC: 1, Payload: fmt.Sprintf("%d.%d/s%d", h.Seed, h.Idx, k)})
-			}
-			for n := 1 + rng.Intn(4); n > 0; n-- {
-				app(0)
-			}
-			h.Steps = append(h.Steps, hx.Step{Op: "join", R: 1, S: 0})
-			for n := 1 + rng.Intn(5); n > 0; n-- {
-				app(0)
-			}
-			for n := rng.Intn(3); n > 0; n-- {
-				app(1)
-			}
+		for n := 1 + rng.Intn(4); n > 0; n-- {
+			app(0)
 		}
-		useEmpty := i%9 == 4
-		exec := func() *hx.Exec {
-			x := hx.NewExec(h)
-			for k := range h.Steps {
-				x.Do(k)
-			}
-			return x
+		h.Steps = append(h.Steps, hx.Step{Op: "join", R: 1, S: 0})
+		for n := 1 + rng.Intn(5); n > 0; n-- {
+			app(0)
 		}
-		src := func(x *hx.Exec) *ipfslog.IPFSLog {
-			if useEmpty {
-				return x.Empty
-			}
-			return x.Logs[b]
+		for n := rng.Intn(3); n > 0; n-- {
+			app(1)
 		}
-		ref := exec()
-		oa, ob := hx.Observe(ref.Logs[a]), hx.Observe(src(ref))
-		if _, err := ref.Logs[a].Join(src(ref), -1); err != nil {
-			run.Violate("C16/unbounded-error", det(), histSample(h), "unbounded merge failed: %v", err)
-			return
+	}
+	useEmpty := i%9 == 4
+	exec := func() *hx.Exec {
+		x := hx.NewExec(h)
+		for k := range h.Steps {
+			x.Do(k)
 		}
-		full := hx.Observe(ref.Logs[a])
-		total := len(full.Values)
-		tot := totalOrder(h.Order, full.Set)
-		shape := model.ShapeDigest(full.Set)
-		for _, n := range append(seqInts(0, total+3), 1<<40, math.MaxInt64) {
-			x := exec()
-			var jerr error
-			var pan any
-			func() {
-				defer func() { pan = recover() }()
-				_, jerr = x.Logs[a].Join(src(x), n)
-			}()
-			run.Count("bounded_merges", 1)
-			d := det("n_gt_total", n > total, "n_zero", n == 0, "order", h.Order)
-			wit := func() map[string]any {
-				m := histSample(h)
-				m["pair"] = fmt.Sprintf("r%d.Join(r%d, %d) (empty source: %v)", a, b, n, useEmpty)
-				m["sizes"] = fmt.Sprintf("|a|=%d |b|=%d |merged|=%d", len(oa.Set), len(ob.Set), total)
-				return m
-			}
-			if pan != nil {
-				run.Violate("C16/panic", d, wit(), "Join(other, %d) panicked with merged size %d: %v", n, total, pan)
-				continue
-			}
-			if jerr != nil {
-				run.Violate("C16/error", d, wit(), "Join(other, %d) failed: %v", n, jerr)
-				continue
-			}
-			got := hx.Observe(x.Logs[a])
-			m := n
-			if m > total {
-				m = total
-			}
-			wantTail := full.Values[total-m:]
-			if len(got.Set) != m || got.Len != m {
-				run.Violate("C16/count", d, wit(), "Join(other, %d): log holds %d entries (Len %d), want min(n,total)=%d", n, len(got.Set), got.Len, m)
-				continue
-			}
-			if !model.EqualAsSets(got.Heads, model.Heads(got.Set)) {
-				run.Violate("C16/heads", d, wit(), "Join(other, %d): heads %v, unreferenced entries %v", n, hx.SortedShorts(got.Heads), hx.Shorts(model.Heads(got.Set)))
-			}
-			for k := range got.Set {
-				if _, ok := full.Set[k]; !ok {
-					run.Violate("C16/foreign-entry", d, wit(), "Join(other, %d): entry %s is not in the unbounded merge", n, hx.Short(k))
-				}
-			}
-			if tot {
-				if !model.EqualAsSets(got.Set.Keys(), wantTail) {
-					run.Violate("C16/not-newest", d, wit(), "Join(other, %d): entries are not the last %d of the unbounded linearisation", n, m)
-				} else if !model.EqualSeq(got.Values, wantTail) {
-					run.Violate("C16/values", d, wit(), "Join(other, %d): values differ from the tail of the unbounded linearisation", n)
-				}
-				if n >= total && obsEqual(got, full) != "" {
-					run.Violate("C16/large-bound-differs", d, wit(), "Join(other, %d) with n >= total differs from the unbounded merge: %s", n, obsEqual(got, full))
-				}
-			}
-			if len(oa.Set) > 0 && len(ob.Set) > 0 && !model.SameKeys(oa.Set, ob.Set) && n > 0 && n != total {
-				nc := "<total"
-				if n > total {
-					nc = ">total"
-				}
-				run.NonTrivial(shape + "/" + nc)
-			}
+		return x
+	}
+	src := func(x *hx.Exec) *ipfslog.IPFSLog {
+		if useEmpty {
+			return x.Empty
 		}
-		// sequences: a log that was already trimmed by a bounded merge is merged again (with the same
-		// source, i.e. an older snapshot of what it dropped, or with another replica)
-		for rep := 0; rep < 2 && total >= 3; rep++ {
-			n1 := 1 + rng.Intn(total-1)
-			c := rng.Intn(h.Replicas)
-			if rng.Intn(2) == 0 {
-				c = a // the same source again
-			}
-			second := func(x *hx.Exec) *ipfslog.IPFSLog {
-				if c == a {
-					return src(x)
-				}
-				return x.Logs[c]
-			}
-			ref2 := exec()
-			var p1 any
-			func() {
-				defer func() { p1 = recover() }()
-				_, _ = ref2.Logs[a].Join(src(ref2), n1)
-				_, _ = ref2.Logs[a].Join(second(ref2), -1)
-			}()
-			if p1 == nil {
-				full2 := hx.Observe(ref2.Logs[a])
-				total2 := len(full2.Values)
-				tot2 := totalOrder(h.Order, full2.Set)
-				for n2 := 0; n2 <= total2+3; n2++ {
-					x := exec()
-					var pan any
-					var jerr error
-					func() {
-						defer func() { pan = recover() }()
-						_, _ = x.Logs[a].Join(src(x), n1)
-						_, jerr = x.Logs[a].Join(second(x), n2)
-					}()
-					run.Count("bounded_merges_of_trimmed_logs", 1)
-					d := det("sequence", true, "n_gt_total", n2 > total2, "order", h.Order)
-					wit := func() map[string]any {
-						m := histSample(h)
-						m["pair"] = fmt.Sprintf("r%d.Join(r%d, %d) then r%d.Join(r%d, %d); unbounded second merge gives %d values", a, b, n1, a, c, n2, total2)
-						return m
-					}
-					if pan != nil {
-						run.Violate("C16/panic", d, wit(), "second bounded merge Join(other, %d) of an already trimmed log panicked (merged linearisation has %d values): %v", n2, total2, pan)
-						continue
-					}
-					if jerr != nil {
-						continue
-					}
-					got := hx.Observe(x.Logs[a])
-					m2 := n2
-					if m2 > total2 {
-						m2 = total2
-					}
-					if len(got.Values) != m2 {
-						run.Violate("C16/count", d, wit(), "second bounded merge Join(other, %d): %d values, want min(n,total)=%d", n2, len(got.Values), m2)
-						continue
-					}
-					if tot2 && !model.EqualSeq(got.Values, full2.Values[total2-m2:]) {
-						run.Violate("C16/values", d, wit(), "second bounded merge Join(other, %d): values are not the tail of the unbounded linearisation", n2)
-					}
-					if n2 > 0 && n2 < total2 {
-						run.NonTrivial(shape + "/seq/" + fmt.Sprint(n1 < total/2))
-					}
-				}
-			} else {
-				run.Violate("C16/panic", det("sequence", true), histSample(h), "bounded merge followed by an unbounded merge panicked: %v", p1)
-			}
-		}
-		run.Eval(1)
-		if i < 2 {
+		return x.Logs[b]
+	}
+	ref := exec()
+	oa, ob := hx.Observe(ref.Logs[a]), hx.Observe(src(ref))
+	if _, err := ref.Logs[a].Join(src(ref), -1); err != nil {
+		run.Violate("C16/unbounded-error", det(), histSample(h), "unbounded merge failed: %v", err)
+		return
+	}
+	full := hx.Observe(ref.Logs[a])
+	total := len(full.Values)
+	tot := totalOrder(h.Order, full.Set)
+	shape := model.ShapeDigest(full.Set)
+	for _, n := range append(seqInts(0, total+3), 1<<40, math.MaxInt64) {
+		x := exec()
+		var jerr error
+		var pan any
+		j.Log(map[string]any{"case": i, "n": n, "total": total, "pair": fmt.Sprintf("r%d.Join(r%d, %d)", a, b, n)})
+		func() {
+			defer func() { pan = recover() }()
+			_, jerr = x.Logs[a].Join(src(x), n)
+		}()
+		run.Count("bounded_merges", 1)
+		d := det("n_gt_total", n > total, "n_zero", n == 0, "order", h.Order)
+		wit := func() map[string]any {
 			m := histSample(h)
-			m["pair"] = fmt.Sprintf("r%d.Join(r%d, n) for n in 0..%d", a, b, total+3)
-			run.Sample(m)
+			m["pair"] = fmt.Sprintf("r%d.Join(r%d, %d) (empty source: %v)", a, b, n, useEmpty)
+			m["sizes"] = fmt.Sprintf("|a|=%d |b|=%d |merged|=%d", len(oa.Set), len(ob.Set), total)
+			return m
 		}
-	})
+		if pan != nil {
+			run.Violate("C16/panic", d, wit(), "Join(other, %d) panicked with merged size %d: %v", n, total, pan)
+			continue
+		}
+		if jerr != nil {
+			run.Violate("C16/error", d, wit(), "Join(other, %d) failed: %v", n, jerr)
+			continue
+		}
+		got := hx.Observe(x.Logs[a])
+		m := n
+		if m > total {
+			m = total
+		}
+		wantTail := full.Values[total-m:]
+		if len(got.Set) != m || got.Len != m {
+			run.Violate("C16/count", d, wit(), "Join(other, %d): log holds %d entries (Len %d), want min(n,total)=%d", n, len(got.Set), got.Len, m)
+			continue
+		}
+		if !model.EqualAsSets(got.Heads, model.Heads(got.Set)) {
+			run.Violate("C16/heads", d, wit(), "Join(other, %d): heads %v, unreferenced entries %v", n, hx.SortedShorts(got.Heads), hx.Shorts(model.Heads(got.Set)))
+		}
+		for k := range got.Set {
+			if _, ok := full.Set[k]; !ok {
+				run.Violate("C16/foreign-entry", d, wit(), "Join(other, %d): entry %s is not in the unbounded merge", n, hx.Short(k))
+			}
+		}
+		if tot {
+			if !model.EqualAsSets(got.Set.Keys(), wantTail) {
+				run.Violate("C16/not-newest", d, wit(), "Join(other, %d): entries are not the last %d of the unbounded linearisation", n, m)
+			} else if !model.EqualSeq(got.Values, wantTail) {
+				run.Violate("C16/values", d, wit(), "Join(other, %d): values differ from the tail of the unbounded linearisation", n)
+			}
+			if n >= total && obsEqual(got, full) != "" {
+				run.Violate("C16/large-bound-differs", d, wit(), "Join(other, %d) with n >= total differs from the unbounded merge: %s", n, obsEqual(got, full))
+			}
+		}
+		if len(oa.Set) > 0 && len(ob.Set) > 0 && !model.SameKeys(oa.Set, ob.Set) && n > 0 && n != total {
+			nc := "<total"
+			if n > total {
+				nc = ">total"
+			}
+			run.NonTrivial(shape + "/" + nc)
+		}
+	}
+	// sequences: a log that was already trimmed by a bounded merge is merged again (with the same
+	// source, i.e. an older snapshot of what it dropped, or with another replica)
+	for rep := 0; rep < 2 && total >= 3; rep++ {
+		n1 := 1 + rng.Intn(total-1)
+		c := rng.Intn(h.Replicas)
+		if rng.Intn(2) == 0 {
+			c = a // the same source again
+		}
+		second := func(x *hx.Exec) *ipfslog.IPFSLog {
+			if c == a {
+				return src(x)
+			}
+			return x.Logs[c]
+		}
+		ref2 := exec()
+		var p1 any
+		func() {
+			defer func() { p1 = recover() }()
+			_, _ = ref2.Logs[a].Join(src(ref2), n1)
+			_, _ = ref2.Logs[a].Join(second(ref2), -1)
+		}()
+		if p1 == nil {
+			full2 := hx.Observe(ref2.Logs[a])
+			total2 := len(full2.Values)
+			tot2 := totalOrder(h.Order, full2.Set)
+			for n2 := 0; n2 <= total2+3; n2++ {
+				x := exec()
+				var pan any
+				var jerr error
+				func() {
+					defer func() { pan = recover() }()
+					_, _ = x.Logs[a].Join(src(x), n1)
+					_, jerr = x.Logs[a].Join(second(x), n2)
+				}()
+				run.Count("bounded_merges_of_trimmed_logs", 1)
+				d := det("sequence", true, "n_gt_total", n2 > total2, "order", h.Order)
+				wit := func() map[string]any {
+					m := histSample(h)
+					m["pair"] = fmt.Sprintf("r%d.Join(r%d, %d) then r%d.Join(r%d, %d); unbounded second merge gives %d values", a, b, n1, a, c, n2, total2)
+					return m
+				}
+				if pan != nil {
+					run.Violate("C16/panic", d, wit(), "second bounded merge Join(other, %d) of an already trimmed log panicked (merged linearisation has %d values): %v", n2, total2, pan)
+					continue
+				}
+				if jerr != nil {
+					continue
+				}
+				got := hx.Observe(x.Logs[a])
+				m2 := n2
+				if m2 > total2 {
+					m2 = total2
+				}
+				if len(got.Values) != m2 {
+					run.Violate("C16/count", d, wit(), "second bounded merge Join(other, %d): %d values, want min(n,total)=%d", n2, len(got.Values), m2)
+					continue
+				}
+				if tot2 && !model.EqualSeq(got.Values, full2.Values[total2-m2:]) {
+					run.Violate("C16/values", d, wit(), "second bounded merge Join(other, %d): values are not the tail of the unbounded linearisation", n2)
+				}
+				if n2 > 0 && n2 < total2 {
+					run.NonTrivial(shape + "/seq/" + fmt.Sprint(n1 < total/2))
+				}
+			}
+		} else {
+			run.Violate("C16/panic", det("sequence", true), histSample(h), "bounded merge followed by an unbounded merge panicked: %v", p1)
+		}
+	}
+	run.Eval(1)
+	if i < 2 {
+		m := histSample(h)
+		m["pair"] = fmt.Sprintf("r%d.Join(r%d, n) for n in 0..%d", a, b, total+3)
+		run.Sample(m)
+	}
 }
